@@ -32,14 +32,18 @@ pub fn dec_base<T: Deserial>(b: &[u8]) -> Option<(T, usize)> {
 
 /// Sweep a type whose values are compared through their encodings (most chain types do
 /// not implement `PartialEq`).
-pub fn sweep_base<T: Serial + Deserial + Debug>(ctx: &mut Ctx, name: &str, values: Vec<T>) {
+pub fn sweep_base<T: Serial + Deserial + Debug>(ctx: &mut Ctx, name: &str, values: Vec<T>) { sweep_cost(ctx, name, values, 1) }
+
+pub fn sweep_cost<T: Serial + Deserial + Debug>(ctx: &mut Ctx, name: &str, values: Vec<T>, cost: usize) {
     let enc = |v: &T| to_bytes(v);
     let dec = |b: &[u8]| dec_base::<T>(b);
     let eq = |a: &T, b: &T| to_bytes(a) == to_bytes(b);
     let show = |v: &T| format!("{v:?}");
-    let c = Codec { name, enc: &enc, dec: &dec, eq: &eq, show: &show, canonical: true, alloc_const: 4 << 20, alloc_factor: 64, short_inputs: true };
+    let c = Codec { name, enc: &enc, dec: &dec, eq: &eq, show: &show, canonical: true, alloc_const: 4 << 20, alloc_factor: 64, short_inputs: true, cost };
+    let t0 = std::time::Instant::now();
     sweep(ctx, &c, &values);
     ctx.extra.insert(format!("values.{name}"), serde_json::json!(values.len()));
+    ctx.extra.insert(format!("ms.{name}"), serde_json::json!(t0.elapsed().as_millis() as u64));
 }
 
 /// The same with structural equality.
@@ -48,20 +52,28 @@ pub fn sweep_eq<T: Serial + Deserial + Debug + PartialEq>(ctx: &mut Ctx, name: &
     let dec = |b: &[u8]| dec_base::<T>(b);
     let eq = |a: &T, b: &T| a == b;
     let show = |v: &T| format!("{v:?}");
-    let c = Codec { name, enc: &enc, dec: &dec, eq: &eq, show: &show, canonical: true, alloc_const: 4 << 20, alloc_factor: 64, short_inputs: true };
+    let c = Codec { name, enc: &enc, dec: &dec, eq: &eq, show: &show, canonical: true, alloc_const: 4 << 20, alloc_factor: 64, short_inputs: true, cost: 1 };
+    let t0 = std::time::Instant::now();
     sweep(ctx, &c, &values);
     ctx.extra.insert(format!("values.{name}"), serde_json::json!(values.len()));
+    ctx.extra.insert(format!("ms.{name}"), serde_json::json!(t0.elapsed().as_millis() as u64));
 }
 
 macro_rules! eqt {
-    ($ctx:expr, $ty:ty, $vals:expr) => {
-        sweep_eq::<$ty>($ctx, stringify!($ty), $vals)
-    };
+    ($t:expr, $ty:ty, $vals:expr) => {{
+        let vals: Vec<$ty> = $vals;
+        $t.add(move |ctx: &mut Ctx| sweep_eq::<$ty>(ctx, stringify!($ty), vals))
+    }};
 }
 macro_rules! ent {
-    ($ctx:expr, $ty:ty, $vals:expr) => {
-        sweep_base::<$ty>($ctx, stringify!($ty), $vals)
-    };
+    ($t:expr, $ty:ty, $vals:expr) => {{
+        let vals: Vec<$ty> = $vals;
+        $t.add(move |ctx: &mut Ctx| sweep_base::<$ty>(ctx, stringify!($ty), vals))
+    }};
+    ($t:expr, $ty:ty, $vals:expr, $cost:expr) => {{
+        let vals: Vec<$ty> = $vals;
+        $t.add(move |ctx: &mut Ctx| sweep_cost::<$ty>(ctx, stringify!($ty), vals, $cost))
+    }};
 }
 
 pub fn addr(b: u8) -> AccountAddress { AccountAddress([b; 32]) }
@@ -78,7 +90,7 @@ fn from_hex<T: Deserial>(h: &str) -> T {
 
 pub const GROUPS: [&str; 6] = ["scalars", "transactions", "payloads", "updates", "credentials", "crypto"];
 
-pub fn run_group(ctx: &mut Ctx, group: &str) {
+pub fn run_group(ctx: &mut Tasks, group: &str) {
     match group {
         "scalars" => scalars(ctx),
         "transactions" => transactions(ctx),
@@ -90,7 +102,7 @@ pub fn run_group(ctx: &mut Ctx, group: &str) {
     }
 }
 
-fn scalars(ctx: &mut Ctx) {
+fn scalars(ctx: &mut Tasks) {
     let u64s = [0u64, 1, u64::MAX];
     eqt!(ctx, Amount, u64s.iter().map(|x| amt(*x)).collect());
     eqt!(ctx, Energy, u64s.iter().map(|x| Energy::from(*x)).collect());
@@ -165,7 +177,7 @@ pub fn sig_map(creds: &[(u8, &[u8])]) -> TransactionSignature {
 
 pub fn header(payload_size: u32) -> TransactionHeader { TransactionHeader { sender: addr(1), nonce: Nonce::from(7u64), energy_amount: Energy::from(1000u64), payload_size: from_hex::<PayloadSize>(&hex::encode(payload_size.to_be_bytes())), expiry: TransactionTime { seconds: 99 } } }
 
-fn transactions(ctx: &mut Ctx) {
+fn transactions(ctx: &mut Tasks) {
     ent!(ctx, TransactionSignature, vec![sig_map(&[(0, &[0])]), sig_map(&[(0, &[0, 1, 255])]), sig_map(&[(0, &[0]), (1, &[3]), (255, &[255])])]);
     ent!(ctx, TransactionSignaturesV1, vec![TransactionSignaturesV1 { sender: sig_map(&[(0, &[0])]), sponsor: None }, TransactionSignaturesV1 { sender: sig_map(&[(0, &[0, 1])]), sponsor: Some(sig_map(&[(1, &[2])])) }]);
     ent!(ctx, TransactionHeader, vec![header(0), header(41), header(MAX_PAYLOAD_SIZE)]);
@@ -262,9 +274,9 @@ fn payload_values(seed: u64) -> Vec<Payload> {
     out
 }
 
-fn payloads(ctx: &mut Ctx) {
+fn payloads(ctx: &mut Tasks) {
     let vals = payload_values(ctx.seed);
-    ent!(ctx, Payload, vals);
+    ent!(ctx, Payload, vals, 12);
     let kp = baker_keys(ctx.seed);
     ent!(ctx, AddBakerPayload, vec![AddBakerPayload { keys: BakerAddKeysPayload::new(&kp, addr(1), &mut rng(ctx.seed, 501)), baking_stake: amt(1000), restake_earnings: true }]);
     ent!(ctx, InitContractPayload, vec![InitContractPayload { amount: amt(5), mod_ref: ModuleReference::from([4u8; 32]), init_name: OwnedContractName::new("init_a".into()).unwrap(), param: OwnedParameter::try_from(vec![1, 2]).unwrap() }]);
@@ -347,11 +359,11 @@ pub fn update_instruction(p: UpdatePayload) -> UpdateInstruction {
     update::update(&signer, UpdateSequenceNumber::from(5u64), TransactionTime { seconds: 100 }, TransactionTime { seconds: 90 }, p)
 }
 
-fn updates(ctx: &mut Ctx) {
+fn updates(ctx: &mut Tasks) {
     let ups = update_payloads(ctx.seed);
     let instrs: Vec<UpdateInstruction> = ups.iter().take(if ctx.tier == mc_core::Tier::Quick { 6 } else { usize::MAX }).map(|p| update_instruction(p.clone())).collect();
-    ent!(ctx, UpdatePayload, ups);
-    ent!(ctx, UpdateInstruction, instrs);
+    ent!(ctx, UpdatePayload, ups, 6);
+    ent!(ctx, UpdateInstruction, instrs, 3);
     ent!(ctx, UpdateHeader, vec![update_instruction(UpdatePayload::FoundationAccount(addr(4))).header]);
     ent!(ctx, UpdateInstructionSignature, vec![update_instruction(UpdatePayload::FoundationAccount(addr(4))).signatures]);
     ent!(ctx, AccessStructure, vec![access(&[0], 1), access(&[0, 1, 65535], 2), access(&[7, 9], 2)]);
